@@ -170,16 +170,18 @@ class Executor(object):
         if isinstance(s, (ast.If, ast.For, ast.While, ast.Try, ast.With)):
             src = src.split("\n")[0]
         outs = []
-        # site assertions / ghost code attached to this statement
-        if src in self.pat_asserts:
-            self.matched_patterns.add(("a", src))
-            for i, a in enumerate(self.pat_asserts[src]):
+        # site assertions / ghost code attached to this statement (a pattern ending in '...' matches by prefix: 'yield ...')
+        def keys(tbl):
+            return [k for k in tbl if k == src or (k.endswith("...") and src.startswith(k[:-3]))]
+        for k in keys(self.pat_asserts):
+            self.matched_patterns.add(("a", k))
+            for i, a in enumerate(self.pat_asserts[k]):
                 g = self.spec_bool(a, st)
                 self.fx.oblig("site", st, g, self.fx.where(s), a)
                 st.assume(g)
-        if src in self.pat_ghost_before:
-            self.matched_patterns.add(("gb", src))
-            st = self.ghost(self.pat_ghost_before[src], st)
+        for k in keys(self.pat_ghost_before):
+            self.matched_patterns.add(("gb", k))
+            st = self.ghost(self.pat_ghost_before[k], st)
         m = getattr(self, "st_" + type(s).__name__, None)
         if m is None:
             raise Outside("statement %s" % type(s).__name__)
@@ -187,12 +189,12 @@ class Executor(object):
         res = m(s, st)
         res = list(self.ev.exc_out) + list(res)
         self.ev.exc_out = []
-        if src in self.pat_ghost_after:
-            self.matched_patterns.add(("ga", src))
+        for k in keys(self.pat_ghost_after):
+            self.matched_patterns.add(("ga", k))
             new = []
             for o in res:
                 if o.kind == "normal":
-                    o = Outcome("normal", self.ghost(self.pat_ghost_after[src], o.st))
+                    o = Outcome("normal", self.ghost(self.pat_ghost_after[k], o.st))
                 new.append(o)
             res = new
         return res
